@@ -1229,6 +1229,9 @@ struct ical_parser_s {
 	size_t bix;
 
 	size_t six;
+	/* set when the stash ends right after a newline, i.e. the next
+	 * buffer decides whether the stashed line is complete */
+	unsigned int nlp:1;
 #if defined ECHSE_VERIF && defined ECHSE_VERIF_STASH
 	/* verification hook: a smaller line stash, all users go by sizeof */
 	char stash[ECHSE_VERIF_STASH];
@@ -1537,9 +1540,9 @@ _ical_pull(struct ical_parser_s p[static 1U])
 	 * we might have put a multiline there and only now it
 	 * becomes apparent that it's indeed a valid line when
 	 * examinging the new bytes in the parser buffer */
-	if (p->six && p->stash[p->six] == '\001') {
-		/* go back to 0 termination */
-		p->stash[p->six] = '\0';
+	if (p->nlp) {
+		/* one look is enough */
+		p->nlp = 0U;
 		/* now check if the stuff in the buffer happens
 		 * to start with a single allowed whitespace in
 		 * which case we enter the normal chop_more
@@ -1576,7 +1579,7 @@ chop_more:
 			 * pre-examination in the next iteration can
 			 * rule whether this was a multi-line or in
 			 * fact a complete line */
-			p->stash[p->six] = '\001';
+			p->nlp = 1U;
 		}
 	} else {
 		const char *bp = BP;
